@@ -35,27 +35,35 @@ Definition c19_model (t : Z) (words keys : val) (refs : list val) : val :=
   let '(m, rss) := run_seq (c19_pool (Z.to_nat t) refs) (words, keys) in
   VL [VL (map VL rss); fst m; snd m; VZ 1; VZ 1].
 
-Definition c19_in_domain (t r : Z) : bool := (1 <=? t) && (t <=? 64) && (1 <=? r) && (r <=? 8).
+Definition c19_in_domain (t r : Z) (words keys calls : list val) : bool :=
+  (1 <=? t) && (t <=? 64) && (1 <=? r) && (r <=? 8) &&
+  (1 <=? Z.of_nat (List.length words)) && (2 <=? Z.of_nat (List.length keys)) && (1 <=? Z.of_nat (List.length calls)).
+
+Definition c19_run (a : list val) : val :=
+  match a with
+  | [VZ t; VZ r; VL words; VZ tsize; VL keys; VL calls] =>
+      match c19_refs calls with
+      | Some refs => if c19_in_domain t r words keys calls then c19_model t (VL words) (VL keys) refs else VBad
+      | None => VBad
+      end
+  | _ => VBad
+  end.
+
+Definition c19_spec (a : list val) (obs : val) : bool :=
+  match a, obs with
+  | [VZ t; VZ r; VL words; VZ tsize; VL keys; VL calls],
+    VL [VL threads; words'; keys'; VZ derived_ok; VZ tables_ok] =>
+      match c19_refs calls with
+      | Some refs =>
+          (Z.of_nat (List.length threads) =? t) &&
+          forallb (fun th => val_eqb th (VL refs)) threads &&   (* concurrent = alone, for every goroutine *)
+          val_eqb words' (VL words) && val_eqb keys' (VL keys) && (* the arguments are unchanged *)
+          (derived_ok =? 1) && (tables_ok =? 1)                   (* so are the shared indexes and the tables *)
+      | None => false
+      end
+  | _, _ => false
+  end.
 
 Definition ops_C19 : list opdef := [
-  {| op_name := "c19.Batch";
-     op_run := fun a => match a with
-       | [VZ t; VZ r; VL words; VZ tsize; VL keys; VL calls] =>
-           match c19_refs calls with
-           | Some refs => if c19_in_domain t r then c19_model t (VL words) (VL keys) refs else VBad
-           | None => VBad
-           end
-       | _ => VBad end;
-     op_spec := fun a obs => match a, obs with
-       | [VZ t; VZ r; VL words; VZ tsize; VL keys; VL calls],
-         VL [VL threads; words'; keys'; VZ derived_ok; VZ tables_ok] =>
-           match c19_refs calls with
-           | Some refs =>
-               (Z.of_nat (List.length threads) =? t) &&
-               forallb (fun th => val_eqb th (VL refs)) threads &&   (* concurrent = alone, for every goroutine *)
-               val_eqb words' (VL words) && val_eqb keys' (VL keys) && (* the arguments are unchanged *)
-               (derived_ok =? 1) && (tables_ok =? 1)                   (* so are the shared indexes and the tables *)
-           | None => false
-           end
-       | _, _ => false end |}
+  {| op_name := "c19.Batch"; op_run := c19_run; op_spec := c19_spec |}
 ].
